@@ -19,6 +19,14 @@ CHECKS = {
    text="static side: every slice pair of the alphabet for which MatchField.tla permits a copy (identical, assignable, convertible element types, defined slice types) must be emitted as a permitted fresh-copy shape (SliceNeverAssigned on the model)",
    note="the run-time side (aliasing, nil stays nil) is decided by trace validation of executed generated functions (GenExec) once registered; until then the shape of the emitted statement is what is judged",
    tech="TLA+ ladder model checked by TLC; emitted slice statements of TLC-enumerated cases compared with the permitted shapes"),
+ "C05": dict(cat="model_checking", sec="6 C05",
+   text="spec/Matching.tla walks destination structs of a typed 'note world' (nested, deep, embedded imported, anonymous, imported with unexported members, empty) with every notation set of MCMatching; TLC checks ExactlyOnce, NothingDropped, NeverMentionInaccessible, WarnPerNoMatch on the model and prints, per program, the accessible leaf set (computed from the type table independently of the walk) and the plan; in every generated function each leaf must be covered exactly once by an assign/skip/no-match line on itself or an enclosing struct, no line may address an inaccessible member, and stderr warnings must sit at the method or failing notation for exactly the no-match lines",
+   note="the world tables (struct shapes, method sets, assignability) are generated from go/types; quick binds ~5.7k programs, thorough ~34k",
+   tech="TLA+ struct-walk model checked by TLC; TLC-enumerated programs replayed through the real tool; covering relation and warnings checked on projected bodies and stderr"),
+ "C06": dict(cat="model_checking", sec="6 C06",
+   text="spec/Matching.tla encodes the precedence skip > explicit (:conv/:map/:map $n/:literal) > default, source path resolution (fields, getter chains, promoted/embedded members, pointers, $n arguments), argument adaptation of converters and member-wise descent when a notation addresses a nested member; TLC checks SkipWins, ExplicitNeverDefault, ErrNeedsErrResult on the model; for every program with notations the projected outcome of every plan path must be in the permitted set (incl. reject / no match for unresolvable or ill-typed sources)",
+   note="one open known finding (explicit whole-struct value over a skipped member); :skip regexps here are the exact / prefix / suffix forms, full RE2 semantics is C19's",
+   tech="TLA+ struct-walk model with notations checked by TLC; TLC-enumerated programs replayed through the real tool and compared per destination path"),
  "C08": dict(cat="model_checking", sec="6 C08",
    text="spec/Signature.tla computes the header (or reject) for the complete product of style x recv x reverse x pointer-ness x error x 0..3 additional arguments x named/unnamed x imported operands (2048 combinations); TLC checks the documented table as invariants (SrcOrRecvFirst, DstPlace, ArgsInOrder, ErrLast, NamesPreserved, IllegalRejected); every combination is run through the tool and the generated header is compared name by name and type by type",
    note="exhaustive over the stated product in both tiers; type expressions are compared as written in the generated file",
